@@ -464,23 +464,6 @@ theorem proxGradStep_vector_is_prox (l1 : Vec α) (γ : α) (x g lb ub : Vec α)
   exact boxL1_is_prox (lamAt l1 i) γ _ _ _ (hl i hi) hγ (hb i hi) _ (hu i hi).1 (hu i hi).2
 
 
-theorem zipWith_map_range (n : Nat) (f g : Nat → α) (op : α → α → α) :
-    List.zipWith op ((List.range n).map f) ((List.range n).map g) = (List.range n).map fun i => op (f i) (g i) := by
-  rw [List.zipWith_map]
-  induction (List.range n) with
-  | nil => rfl
-  | cons a as ih => simp
-
-theorem sum_map_mul_left' (l : List Nat) (r : α) (f : Nat → α) :
-    (l.map fun b => r * f b).sum = r * (l.map f).sum := by
-  induction l with
-  | nil => simp
-  | cons a as ih => simp only [List.map_cons, List.sum_cons, ih]; ring
-
-theorem sum_map_range_congr (n : Nat) (f g : Nat → α) (h : ∀ i < n, f i = g i) :
-    ((List.range n).map f).sum = ((List.range n).map g).sum := by
-  congr 1; apply List.map_congr_left; intro i hi; exact h i (List.mem_range.mp hi)
-
 /-- **returned value**: `eval_prox_grad_step` returns `h(x̂) = Σ λ_i |x̂_i|` (0 without ℓ1 term).
     In the per-component case the weight vector must have the size of `x` (as the C++ asserts). -/
 theorem proxGradStep_returns_h (l1 : Vec α) (γ : α) (x g lb ub : Vec α)
@@ -499,7 +482,7 @@ theorem proxGradStep_returns_h (l1 : Vec α) (γ : α) (x g lb ub : Vec α)
   · by_cases h1 : l1.length = 1
     · simp only [h1, beq_self_eq_true, if_true, if_false, show (1 == 0) = false from rfl,
         Bool.false_eq_true, List.map_map]
-      rw [key, norm1_eq_sum_abs, List.map_map, ← sum_map_mul_left']
+      rw [key, norm1_eq_sum_abs, List.map_map, ← sum_map_mul_left_nat]
       apply sum_map_range_congr; intro i _
       simp [lamAt, h1]
     · have hn : l1.length = x.length := by rcases hlen with h | h <;> omega
@@ -636,6 +619,30 @@ theorem cplxL1_vector_is_prox (hs : LawfulSqrt α) (γ lam : α) (hγ : 0 < γ) 
       simp only [List.map_cons, List.zipWith_cons_cons, List.sum_cons]
       exact add_le_add (cplxSoft_is_prox hs γ lam z.1 z.2 hγ hl w.1 w.2) (ih ws (by simpa using hlen))
 
+/-- `|z·l| = l·|z|` for a real weight `l ≥ 0` (what `out.cwiseProduct(λ)` feeds to `norm_1`). -/
+theorem cabs_scale (hs : LawfulSqrt α) (z : α × α) (l : α) (hl : 0 ≤ l) :
+    cabs (z.1 * l, z.2 * l) = l * cabs z := by
+  unfold cabs
+  have h0 := mag2_nonneg z.1 z.2
+  apply sqrt_eq_of_mul_self hs _ _ (mul_nonneg hl (hs.sqrt_nonneg _ h0))
+  have := hs.sqrt_mul_self _ h0
+  simp only []
+  linear_combination l * l * this
+
+/-- **returned value** (per-component weights `λ_i ≥ 0`): `h = Σ_i λ_i |out_i|`. -/
+theorem cplxL1ValueVectorW_eq (hs : LawfulSqrt α) (lam : Vec α) (out : CVec α) (hl : ∀ l ∈ lam, 0 ≤ l) :
+    cplxL1ValueVectorW lam out = (List.zipWith (fun z l => l * cabs z) out lam).sum := by
+  simp only [cplxL1ValueVectorW, cnorm1, vsum_eq_sum, cscale]
+  congr 1
+  induction out generalizing lam with
+  | nil => simp
+  | cons z zs ih =>
+    cases lam with
+    | nil => simp
+    | cons l ls =>
+      simp only [List.zipWith_cons_cons, List.map_cons]
+      rw [ih ls (fun l' h' => hl l' (List.mem_cons_of_mem _ h')), cabs_scale hs z l (hl l (List.mem_cons_self ..))]
+
 end Complex
 
 /-- `ℝ` with `Real.sqrt` as the model's `sqrt`: the carrier assumption is satisfiable. -/
@@ -726,5 +733,26 @@ example : (proxGradStepBoxL1 (1 : ℚ) 1 5 1 (-1) 2).2 = 2 := by
 example : inInterior (0:ℚ) 2 1 = true := by decide
 example : projMult1 true false (10:ℚ) (-3) = 0 := by
   norm_num [projMult1, emax, emin]
+
+example : inactiveGeneral (1:ℚ) 1 (-1) 3 2 = true ∧ (0:ℚ) < 1 * 1 := by
+  norm_num [inactiveGeneral, inInterior]
+example : inactiveGeneral (1:ℚ) 1 (-1) 3 (1/2) = false := by
+  norm_num [inactiveGeneral, inInterior]
+example : (proxGradStep [(1:ℚ)] 1 [5, 0] [1, 0] [-1, -1] [2, 2]).2.1 = [2, 0] := by
+  norm_num [proxGradStep, proxGradStepBoxL1, vget, emax, emin, List.range, List.range.loop]
+example : nucThreshold (1:ℚ) (1/2) 2 = 3/2 ∧ nucThreshold (1:ℚ) (1/2) (1/4) = 0 := by
+  norm_num [nucThreshold, emax]
+example : SortedDesc [(3:ℚ), 1, 1/4, 0] ∧ nucRank ([(3:ℚ), 1, 1/4, 0].map (nucThreshold 1 (1/2))) = 2 := by
+  constructor
+  · norm_num [SortedDesc]
+  · rw [nucRank_map]; norm_num [List.findIdx_cons]
+/-- the complex soft-threshold at concrete points over `ℝ`: `v = 3 + 4i`, `γλ = 1` gives
+    `v·(1 − 1/5)`; `γλ = 5` is the tie `|v| = γλ`. -/
+example : cplxSoftScalarW (1:ℝ) 1 3 4 = (12/5, 16/5) := by
+  have h5 : RealLike.sqrt ((3:ℝ) * 3 + 4 * 4) = 5 :=
+    sqrt_eq_of_mul_self lawfulSqrt_real 5 _ (by norm_num) (by norm_num)
+  rw [cplxSoft_closed, h5, if_neg (by norm_num)]
+  norm_num
+example : cplxSoftScalarW (1:ℝ) 5 3 4 = (0, 0) := cplxSoft_tie _ _ _ _ (by norm_num)
 
 end Alpaqa.Props.C15
